@@ -709,7 +709,7 @@ func (c *runCfg) check(r *runResult) (class, msg string) {
 	} else {
 		p := lg.pts[xkey(res.X)]
 		claimed := res.F < math.Inf(1) // a value below +Inf must be backed by an evaluation
-		if !claimed && lg.minF < math.Inf(1) && c.o.kind != "gradnan" && c.o.kind != "nan" {
+		if !claimed && lg.minF < math.Inf(1) && c.o.kind != "gradnan" && c.o.kind != "nan" && !(c.o.kind == "nanregion" && !c.m.usesLS) {
 			// (objectives that return NaN are excluded: e.g. NelderMead adopts a NaN vertex as
 			// its best point for ever - comparisons with NaN, don't-care zone in NOTES.md)
 			return "location", fmt.Sprintf("result F=%v although values below +Inf were returned by Func (least %v)", res.F, lg.minF)
